@@ -155,7 +155,7 @@ def check(ctx: Ctx):
     G.check_go_order(ctx, hg2, "R-GO")
     n_es = G.check_enter_state_last(ctx, [m_ for m_ in repo.cls(MGM2, "Mgm2Computation").methods.values()], "R-GO")
     if n_es < 8:
-        raise AnalysisError(f"MGM2: only {n_es} paths entering a state found (8 confirmed by reading)")
+        ctx.defer(f"MGM2: only {n_es} paths entering a state found (8 confirmed by reading)")
     G.check_offer_slots(ctx, repo, "R-GO")
     G.check_mgm_costmodel(ctx, cb, hv, "R-GAIN")
     # flows
